@@ -1247,6 +1247,8 @@ func main() {
 	c.Set("rule", fmt.Sprintf("per fixture (header untouched): SUB single-byte substitutions after the header per coverage.substitution_plan (ordered fixed value alphabet, or all 255 other values); REENC every single-header re-encoding of every item after the header (depth bound %d, 0 = none); TREE delete/duplicate/swap-next/move-to-end of every child of every array/map after the header down to depth %d + extra block-array elements (EBB: first/second/middle/last id only); TX consistent transaction-level edits (drop/duplicate tx, swap witness sets/bodies/whole txs for every pair, witness set := {}, metadata re-keyed to every other index / cleared, invalid-tx list := [], [0], [n-1], [0..n-1], [n]; Byron: drop/duplicate pair, swap witnesses/bodies/pairs, payloads replaced by each other and by 80, 9fff, 8180; Dijkstra: drop/duplicate tx, invalid_transactions, peras certificate). distinct = (fixture, kind, region, role/op class) among mutants that decode with validation off", reencDepth, treeDepth))
 	c.Assume("blake2b-256 (golang.org/x/crypto) trusted; the reference commitment (own CBOR reader, own merkle tree, own segment hashing) is pinned to the real headers: it must reproduce the committed value of every real fixture, else the run aborts as INTERNAL-ERROR")
 	c.Assume("header bytes are never mutated (out of scope); ssc payload, Byron extra data and list framing are not in the commitment the property names: mutants confined to them are counted as 'accepted,committed-part-unchanged', not judged")
+	// free-running -race pass: concurrent callers on their own inputs (state the library shares between calls)
+	c.RaceAudit("c34")
 	c.Finish()
 }
 
